@@ -49,6 +49,10 @@ MoveProp(e, attr, new) ==
   LET p == PropsOf(e)[PropIdx(e, attr)]
   IN SetKw(e, "properties",
            Append(SelectSeq(PropsOf(e), LAMBDA q : q.attr # attr), [p EXCEPT !.attr = new]))
+(* properties[attr].element.default = d: a change made BELOW the element, in place *)
+SetPropDefault(e, attr, d) ==
+  SetKw(e, "properties",
+        [PropsOf(e) EXCEPT ![PropIdx(e, attr)] = [@ EXCEPT !.elem = SetKw(@, "default", d)]])
 ToggleRequired(e, attr) ==
   SetKw(e, "properties",
         [PropsOf(e) EXCEPT ![PropIdx(e, attr)] = [@ EXCEPT !.required = ~@]])
